@@ -45,6 +45,15 @@ func init() {
 	}
 	Configs["vamana-wide"] = Config{Name: "vamana-wide", NoExtras: true, PVec: 0.95, VecRange: 1500, VecLine: true, Props: append([]Prop{
 		{Name: "v", Type: models.IndexTypeVectorVamana, Metric: models.DistanceEuclidean, Dim: 2, SearchSize: 75, DegreeBound: 64, Alpha: 1.2}}, filt...)}
+	Configs["flat-pq"] = Config{Name: "flat-pq", NoExtras: true, NIDs: 1300, Quantised: true, PVec: 0.97, VecRange: 9, Props: append([]Prop{
+		{Name: "fl", Type: models.IndexTypeVectorFlat, Metric: models.DistanceEuclidean, Dim: 4,
+			Quant: &models.Quantizer{Type: models.QuantizerProduct, Product: &models.ProductQuantizerParameters{NumCentroids: 8, NumSubVectors: 2, TriggerThreshold: 1000}}}}, filt...)}
+	Configs["flat-binlearn"] = Config{Name: "flat-binlearn", NoExtras: true, Quantised: true, PVec: 0.9, Props: append([]Prop{
+		{Name: "fl", Type: models.IndexTypeVectorFlat, Metric: models.DistanceEuclidean, Dim: 5,
+			Quant: &models.Quantizer{Type: models.QuantizerBinary, Binary: &models.BinaryQuantizerParamaters{TriggerThreshold: 5, DistanceMetric: models.DistanceHamming}}}}, filt...)}
+	Configs["vamana-binlearn"] = Config{Name: "vamana-binlearn", NoExtras: true, Quantised: true, PVec: 0.9, Props: append([]Prop{
+		{Name: "v", Type: models.IndexTypeVectorVamana, Metric: models.DistanceEuclidean, Dim: 5, SearchSize: 75, DegreeBound: 32, Alpha: 1.2,
+			Quant: &models.Quantizer{Type: models.QuantizerBinary, Binary: &models.BinaryQuantizerParamaters{TriggerThreshold: 5, DistanceMetric: models.DistanceHamming}}}}, filt...)}
 	Configs["text"] = Config{Name: "text", NoExtras: true, Props: append([]Prop{
 		{Name: "t", Type: models.IndexTypeText}, {Name: "n.t", Type: models.IndexTypeText}}, filt...)}
 	Configs["kitchen"] = Config{Name: "kitchen", BadTypes: true, Props: []Prop{
